@@ -273,7 +273,7 @@ func c14OrderAndBlock(c *Ctx) {
 	allowBlock := map[string]string{
 		"(*db.DB).Reload": "the select is bounded by the reload timeout context",
 	}
-	reloadMu := "dnsserver.FBDNSDB.reloadMu"
+	reloadMu := "dnsserver.FBDNSDB" + c.reloadMu()
 	nb := 0
 	for _, fn := range c.OurFuncs("dnsserver", "db") {
 		for _, b := range fn.Blocks {
